@@ -67,7 +67,7 @@ Hypothesis H_some : forall st b st' b' f, wf b -> okl (b_pend b) -> st_ok st -> 
   st' = init /\ (exists k, b' = consume k b /\ k <= buf_len b /\ cons_need st <= k) /\
   (forall fut F fi, length (b_pend b ++ fut) < F -> ref_from F st (b_pend b ++ fut) fi = consf f (rf F (b_pend b' ++ fut) fi)).
 Hypothesis H_err : forall st b st' b' e, wf b -> okl (b_pend b) -> st_ok st -> pp st b = (st', b', Err e) ->
-  (exists k, b' = consume k b /\ k <= buf_len b) /\
+  (exists k, b' = consume k b /\ k <= buf_len b /\ cons_need st <= k) /\
   (forall fut F fi, length (b_pend b ++ fut) < F -> ref_from F st (b_pend b ++ fut) fi = ([], EndBad e)).
 Hypothesis H_panic : forall st b st' b', wf b -> okl (b_pend b) -> st_ok st -> pp st b <> (st', b', Panic).
 
@@ -80,10 +80,12 @@ Definition nf_post (F : nat) (st : pst) (b : buf) (n : net) (fi : fin) (res : re
   | (r', n', NfFrame f) =>
       exists b', r' = rd init b' /\ wf b' /\ okl (b_pend b') /\ Forall okl n' /\ sfin n' fi = sfin n fi /\
         ref_from F st s (sfin n fi) = consf f (rf F (b_pend b' ++ sbytes n') (sfin n fi)) /\
-        length (b_pend b' ++ sbytes n') + cons_need st <= length s
+        length (b_pend b' ++ sbytes n') + cons_need st <= length s /\
+        (exists consumed, s = consumed ++ b_pend b' ++ sbytes n')
   | (r', n', NfEnd (EndBad e)) =>
       ref_from F st s (sfin n fi) = ([], EndBad e) /\
-      exists b', r' = rd init b' /\ wf b' /\ okl (b_pend b') /\ Forall okl n' /\ length (b_pend b' ++ sbytes n') <= length s
+      exists b', r' = rd init b' /\ wf b' /\ okl (b_pend b') /\ Forall okl n' /\ length (b_pend b' ++ sbytes n') + cons_need st <= length s /\
+        (exists consumed, s = consumed ++ b_pend b' ++ sbytes n')
   | (_, _, NfEnd e) => e <> EndPanic /\ e <> EndOutOfFuel /\ ref_from F st s (sfin n fi) = ([], e)
   end.
 
@@ -101,7 +103,9 @@ Proof using All.
   - (* frame *)
     destruct (H_some _ _ _ _ _ Hwf Hok Hst Ep) as (-> & (k & -> & Hk & Hck) & Href).
     unfold nf_post. exists (consume k b). split; [reflexivity|]. split; [now apply consume_wf|]. split; [apply Hokc|]. split; [exact Hokn|]. split; [reflexivity|].
-    split; [apply Href; exact HF|]. rewrite !app_length, consume_pend_len by assumption. unfold buf_len in Hk. lia.
+    split; [apply Href; exact HF|].
+    split; [rewrite !app_length, consume_pend_len by assumption; unfold buf_len in Hk; lia|].
+    exists (firstn k (b_pend b)). cbn [consume b_pend]. now rewrite app_assoc, firstn_skipn.
   - (* more bytes needed *)
     destruct (H_none _ _ _ _ Hwf Hok Hst Ep) as (Hst' & Hstuck & (k & -> & Hk & Hck) & Href).
     assert (Hwf' := consume_wf _ _ Hwf Hk).
@@ -144,18 +148,22 @@ Proof using All.
           assert (Hsf : sfin ((x :: c) :: n') fi = sfin n1 fi) by (cbn [sfin]; now rewrite Hf1).
           unfold nf_post in *. rewrite (Href _ F _ HF), Heq, Hsf.
           destruct (next_frame fuel (rd st' b'') n1 fi) as [[r1 n2] res]. destruct res as [f|e].
-          - destruct IH as (b3 & -> & Hwf3 & Hok3 & Hokn3 & Hsf3 & Hr3 & Hl3). exists b3. repeat split; try assumption. lia.
+          - destruct IH as (b3 & -> & Hwf3 & Hok3 & Hokn3 & Hsf3 & Hr3 & Hl3 & (cs & Hcs)). exists b3. repeat split; try assumption; [lia|].
+            exists (firstn k (b_pend b) ++ cs). rewrite <- app_assoc, <- Hcs, <- Heq. cbn [consume b_pend]. now rewrite !app_assoc, firstn_skipn.
           - destruct e; try exact IH.
-            destruct IH as (Hr3 & b3 & -> & Hwf3 & Hok3 & Hokn3 & Hl3). split; [exact Hr3|]. exists b3. repeat split; try assumption. lia. }
+            destruct IH as (Hr3 & b3 & -> & Hwf3 & Hok3 & Hokn3 & Hl3 & (cs & Hcs)). split; [exact Hr3|]. exists b3. repeat split; try assumption; [lia|].
+            exists (firstn k (b_pend b) ++ cs). rewrite <- app_assoc, <- Hcs, <- Heq. cbn [consume b_pend]. now rewrite !app_assoc, firstn_skipn. }
         destruct (skipn j (x :: c)) as [|y rest] eqn:Erest.
         -- apply Hgoal; [reflexivity|reflexivity|exact Hokn'|]. cbn [length] in *. lia.
         -- apply Hgoal; [reflexivity|reflexivity| |].
            ++ constructor; [rewrite <- Erest; now apply okl_skipn|exact Hokn'].
            ++ cbn [concat]. rewrite app_length. cbn [length] in *. lia.
   - (* framing error *)
-    destruct (H_err _ _ _ _ _ Hwf Hok Hst Ep) as ((k & -> & Hk) & Href).
+    destruct (H_err _ _ _ _ _ Hwf Hok Hst Ep) as ((k & -> & Hk & Hck) & Href).
     unfold nf_post. split; [apply Href; exact HF|]. exists (consume k b). rewrite H_reset. split; [reflexivity|].
-    split; [now apply consume_wf|]. split; [apply Hokc|]. split; [exact Hokn|]. rewrite !app_length, consume_pend_len by assumption. lia.
+    split; [now apply consume_wf|]. split; [apply Hokc|]. split; [exact Hokn|].
+    split; [rewrite !app_length, consume_pend_len by assumption; unfold buf_len in Hk; lia|].
+    exists (firstn k (b_pend b)). cbn [consume b_pend]. now rewrite app_assoc, firstn_skipn.
   - exfalso. exact (H_panic _ _ _ _ Hwf Hok Hst Ep).
 Qed.
 
@@ -169,10 +177,27 @@ Proof using All.
   pose proof (nf_ref (nf_fuel n) init b n fi F Hwf Hok Hokn H_init_ok ltac:(unfold nf_fuel; lia) HF) as Hnf.
   unfold nf_post in Hnf. cbv zeta in Hnf. rewrite H_init in Hnf. pose proof H_cons_init as Hci.
   destruct (next_frame (nf_fuel n) (rd init b) n fi) as [[r' n'] res]. destruct res as [f|e].
-  - destruct Hnf as (b' & -> & Hwf' & Hok' & Hokn' & Hsf & Hr & Hl). rewrite Hr.
+  - destruct Hnf as (b' & -> & Hwf' & Hok' & Hokn' & Hsf & Hr & Hl & _). rewrite Hr.
     rewrite (IH b' n' fi F Hwf' Hok' Hokn'); [|lia|lia]. rewrite Hsf. destruct (rf F (b_pend b' ++ sbytes n') (sfin n fi)) as [fs e]. reflexivity.
   - destruct e; try (destruct Hnf as (_ & _ & ->); reflexivity).
     destruct Hnf as (-> & _). reflexivity.
+Qed.
+
+(* no panic and no wedge, in both modes (stop at the first error / keep going after framing errors) *)
+Theorem run_total : forall fuel resume b n fi,
+  wf b -> okl (b_pend b) -> Forall okl n -> length (b_pend b ++ sbytes n) < fuel ->
+  snd (run_reader fuel resume (rd init b) n fi) <> EndPanic /\ snd (run_reader fuel resume (rd init b) n fi) <> EndOutOfFuel.
+Proof using All.
+  induction fuel as [|fuel IH]; intros resume b n fi Hwf Hok Hokn Hfu; [lia|].
+  cbn [run_reader].
+  pose proof (nf_ref (nf_fuel n) init b n fi (S (length (b_pend b ++ sbytes n))) Hwf Hok Hokn H_init_ok ltac:(unfold nf_fuel; lia) ltac:(lia)) as Hnf.
+  unfold nf_post in Hnf. cbv zeta in Hnf. pose proof H_cons_init as Hci.
+  destruct (next_frame (nf_fuel n) (rd init b) n fi) as [[r' n'] res]. destruct res as [f|e].
+  - destruct Hnf as (b' & -> & Hwf' & Hok' & Hokn' & _ & _ & Hl & _).
+    specialize (IH resume b' n' fi Hwf' Hok' Hokn' ltac:(lia)). destruct (run_reader fuel resume (rd init b') n' fi) as [l e]. exact IH.
+  - destruct e as [e| | | |]; try (destruct Hnf as (H1 & H2 & _); cbn [snd]; split; congruence).
+    destruct Hnf as (_ & b' & -> & Hwf' & Hok' & Hokn' & Hl & _). destruct resume; [|cbn [snd]; split; discriminate].
+    specialize (IH true b' n' fi Hwf' Hok' Hokn' ltac:(lia)). destruct (run_reader fuel true (rd init b') n' fi) as [l e']. exact IH.
 Qed.
 
 Corollary session_ref : forall n fi F, Forall okl n -> length (sbytes n) < F ->
